@@ -168,6 +168,10 @@ func (p *Plan) Scalar(key, typeName string) *parsers.J {
 		if p.Faults[key] == KMarshalPanic {
 			return parsers.NewStr("MARSHAL_PANIC-" + key)
 		}
+		if x%5 == 0 {
+			// marshalled with a trailing line feed (legal JSON white space)
+			return parsers.NewStr(fmt.Sprintf("blob-%s-%d~nl", key, x%97))
+		}
 		return parsers.NewStr(fmt.Sprintf("blob-%s-%d", key, x%97))
 	default:
 		return parsers.NewStr(fmt.Sprintf("%s-%d", key, x%97))
